@@ -293,3 +293,24 @@ Example c19_hook_example :
   map e_cur (r_epochs s) = [2] /\ map e_cur (r_epochs s') = [3] /\
   r_exts s' = r_exts s /\ map x_count (r_exts s') = [0] /\ r_bal s' 3 = 9223372036854775808.
 Proof. vm_compute. repeat split. Qed.
+
+(* the hook, error return (the input of fix b2d3331): a locker program (1 000 000 000 locked, 5 000 000
+   over 5 days), a second locker program created later on an app whose kill switch is then turned
+   on, a vault program.  One day later DistributeExtRewardLocker pays the first program's owner
+   1 000 000 and then returns ErrCircuitBreakerEnabled at the second: the whole locker step is rolled
+   back (nothing paid to 11, records untouched), the vault step after it still runs (21 gets 300).
+   With the switch off the locker step is kept *)
+Example c19_hook_error_example :
+  let pop := mkXenv 1000000000 [(11, 1000000000, 0)] in
+  let vpop := mkXenv 500 [(21, 500, 0)] in
+  let ops := [ExtCreate 0 3 5000000 5 1 0 5000000 true; ExtCreate 0 3 700 1 1 0 700 true; ExtCreate 1 3 900 3 1 0 900 true] in
+  let s := rrun rinit ops in
+  let on := mkBenv [] [] [pop; mkXenvH 0 [] true; vpop] in
+  let off := mkBenv [] [] [pop; mkXenv 0 []; vpop] in
+  begin_steps_ok 86401 on s = [true; false; true; true] /\
+  (exists s', rstep s (Begin 86401 on) = Ok (s', [(3, 21, 300)]) /\
+     map x_avail (r_exts s') = [5000000; 700; 600] /\ map x_count (r_exts s') = [0; 0; 1] /\ r_bal s' 3 = 5001300) /\
+  begin_steps_ok 86401 off s = [true; true; true; true] /\
+  (exists s', rstep s (Begin 86401 off) = Ok (s', [(3, 11, 1000000); (3, 21, 300)]) /\
+     map x_avail (r_exts s') = [4000000; 700; 600] /\ map x_count (r_exts s') = [1; 1; 1] /\ r_bal s' 3 = 4001300).
+Proof. vm_compute. repeat split; eexists; repeat split. Qed.
